@@ -276,6 +276,17 @@ struct RawRw {
     // task notifies them.
     gate: ss::Mutex<()>,
     cv: ss::Condvar,
+    // tasks of the controlled runtime that hold a shared guard (one entry per guard): a shared
+    // acquisition by a task that already holds one is a scheduling point, so that the explorer can
+    // let a writer announce itself in between (see `lock_exclusive`)
+    holders: std::sync::Mutex<Vec<usize>>,
+}
+
+fn current_task() -> Option<usize> {
+    if !verif_rt::in_execution() {
+        return None;
+    }
+    shuttle::current::get_current_task().map(usize::from)
 }
 
 impl RawRw {
@@ -284,6 +295,14 @@ impl RawRw {
             st: std::sync::Mutex::new((0, false, 0)),
             gate: ss::Mutex::new(()),
             cv: ss::Condvar::new(),
+            holders: std::sync::Mutex::new(Vec::new()),
+        }
+    }
+
+    fn holders(&self) -> std::sync::MutexGuard<'_, Vec<usize>> {
+        match self.holders.lock() {
+            Ok(g) => g,
+            Err(p) => p.into_inner(),
         }
     }
 
@@ -343,15 +362,49 @@ impl RawRw {
     }
 
     fn lock_shared(&self) {
+        let me = current_task();
+        if let Some(t) = me {
+            let recursive = self.holders().contains(&t);
+            if recursive {
+                verif_rt::harness_switch("rw.read.recursive");
+            }
+        }
         if !self.try_shared() {
             self.wait_until("rw.read", Self::try_shared);
         }
+        if let Some(t) = me {
+            self.holders().push(t);
+        }
     }
 
+    /// parking_lot's policy: a writer first announces itself (its WRITER bit) as soon as no other
+    /// writer has done so - also while readers still hold the lock - and then waits for those
+    /// readers to leave. From the announcement on `read()` blocks (`try_shared` looks at the same
+    /// flag), which is why "attempts to recursively acquire a read lock within a single thread may
+    /// result in a deadlock" (parking_lot's documentation): the second `read()` of a thread waits
+    /// for the announced writer, which waits for the thread's first guard. A reader-preferring
+    /// model would hide exactly that deadlock.
     fn lock_exclusive(&self) {
-        if !self.try_exclusive() {
-            self.wait_until("rw.write", Self::try_exclusive);
+        if !self.try_announce_writer() {
+            self.wait_until("rw.write", Self::try_announce_writer);
         }
+        if !self.readers_gone() {
+            self.wait_until("rw.write.drain", Self::readers_gone);
+        }
+    }
+
+    fn try_announce_writer(&self) -> bool {
+        let mut st = self.st();
+        if !st.1 {
+            st.1 = true;
+            true
+        } else {
+            false
+        }
+    }
+
+    fn readers_gone(&self) -> bool {
+        self.st().0 == 0
     }
 
     fn wake(&self, waiters: usize) {
@@ -367,6 +420,22 @@ impl RawRw {
     }
 
     fn unlock_shared(&self) {
+        {
+            let me = current_task();
+            let mut h = self.holders();
+            let pos = match me {
+                Some(t) => h.iter().rposition(|x| *x == t),
+                None => None,
+            };
+            match pos {
+                Some(i) => {
+                    h.remove(i);
+                }
+                None => {
+                    h.pop();
+                }
+            }
+        }
         let waiters = {
             let mut st = self.st();
             debug_assert!(st.0 > 0);
@@ -425,6 +494,9 @@ impl<T: ?Sized> RwLock<T> {
 
     pub fn try_read(&self) -> Option<RwLockReadGuard<'_, T>> {
         if self.raw.try_shared() {
+            if let Some(t) = current_task() {
+                self.raw.holders().push(t);
+            }
             Some(RwLockReadGuard { lock: self })
         } else {
             None
@@ -515,6 +587,9 @@ impl<'a, T: ?Sized> RwLockWriteGuard<'a, T> {
             st.0 += 1;
             st.2
         };
+        if let Some(t) = current_task() {
+            lock.raw.holders().push(t);
+        }
         lock.raw.wake(waiters);
         RwLockReadGuard { lock }
     }
